@@ -19,7 +19,8 @@ Theorem de_total : forall e c, dec_ok c = true -> customs_ok (cust e) c -> env_n
 Proof. exact de_total_lemma. Qed.
 Print Assumptions de_total.
 
-(* ... at every offset; the reported number of characters read stays within the text *)
+(* ... at every offset 0 <= idx <= len(data) (what the library itself passes: by the second part the
+   next offset is again within the text); the reported number of characters read stays within the text *)
 Theorem de_at_total : forall e c, dec_ok c = true -> customs_ok (cust e) c -> env_nonneg e ->
   forall data idx, safe (de_at e c data idx) /\
     forall k l, de_at e c data idx = Ok (Some (k, l)) -> (idx + k <= Nat.max idx (length data))%nat.
